@@ -175,6 +175,9 @@ func (p *c07) Run(c fw.Case, r *fw.Rec) {
 		}
 	}
 	for _, e := range res.ErrList {
+		if i := strings.IndexByte(e, '\n'); i >= 0 {
+			e = e[:i] // only the head line of an entry carries its position; later lines may quote source text
+		}
 		m := reErrPos.FindStringSubmatch(e)
 		if m == nil || strings.ContainsAny(m[1], " \t`\"") || !strings.Contains(m[1], ".") {
 			continue // not a file:line:col prefix (e.g. a line of source text quoted inside a multi-line message)
